@@ -5,6 +5,7 @@ import (
 	"go/ast"
 	"go/token"
 	"go/types"
+	"sort"
 	"strings"
 
 	"gengoverif/checker/internal/cfgx"
@@ -288,26 +289,71 @@ func c09R2(r *core.Report, sc *scanClosure) {
 	}
 	// (c) the name scan accepts exactly [A-Za-z0-9_] and stops at EOF or '
 	classes := map[string]bool{}
-	ast.Inspect(inner.Body, func(m ast.Node) bool {
-		b, ok := m.(*ast.BinaryExpr)
-		if !ok {
+	var extraCalls []string
+	var collect func(body ast.Node, finfo *types.Info, cur *types.Var, depth int)
+	collect = func(body ast.Node, finfo *types.Info, cur *types.Var, depth int) {
+		ast.Inspect(body, func(m ast.Node) bool {
+			switch x := m.(type) {
+			case *ast.BinaryExpr:
+				if v, op, c, ok := cmpConst(finfo, x); ok && core.VarOf(finfo, v) == cur {
+					classes[fmt.Sprintf("%s%d", op, c)] = true
+				}
+			case *ast.CallExpr:
+				// a predicate applied to the cursor: look inside an in-scope helper, reject anything else
+				usesCur := false
+				idx := -1
+				for i, a := range x.Args {
+					if core.VarOf(finfo, a) == cur {
+						usesCur, idx = true, i
+					}
+				}
+				if !usesCur {
+					return true
+				}
+				name := core.CalleeName(finfo, x)
+				if callee := r.Prog.FuncOfObj(core.CalleeFunc(finfo, x)); callee != nil && depth < 2 {
+					k := 0
+					for _, fld := range callee.Type.Params.List {
+						for _, nm := range fld.Names {
+							if k == idx {
+								if pv, _ := callee.Info().ObjectOf(nm).(*types.Var); pv != nil {
+									collect(callee.Body, callee.Info(), pv, depth+1)
+								}
+							}
+							k++
+						}
+					}
+					return true
+				}
+				if tv, isConv := finfo.Types[x.Fun]; isConv && tv.IsType() {
+					return true
+				}
+				if strings.HasSuffix(name, ").WriteRune") {
+					return true
+				}
+				extraCalls = append(extraCalls, name)
+			}
 			return true
-		}
-		x, op, c, ok := cmpConst(info, b)
-		if ok && core.VarOf(info, x) == sc.cursor {
-			classes[fmt.Sprintf("%s%d", op, c)] = true
-		}
-		return true
-	})
+		})
+	}
+	collect(inner.Body, info, sc.cursor, 0)
 	want := []string{">=65", "<=90", ">=97", "<=122", ">=48", "<=57", "==95", "==39"}
-	missing := []string{}
+	allowed := map[string]bool{"==-1": true, "==64": true, "!=-1": true, "!=39": true}
+	missing, extra := []string{}, []string{}
 	for _, w := range want {
+		allowed[w] = true
 		if !classes[w] {
 			missing = append(missing, w)
 		}
 	}
-	r.Check(len(missing) == 0, rule, sc.f, "placeholder names are [A-Za-z0-9_]+ terminated by EOF, ' or any other rune", inner.Pos(),
-		"comparison constants of the name scan are A-Z a-z 0-9 _ and '", "the name scan's rune classes differ from [A-Za-z0-9_] / apostrophe: missing comparisons "+strings.Join(missing, ","))
+	for c := range classes {
+		if !allowed[c] {
+			extra = append(extra, c)
+		}
+	}
+	sort.Strings(extra)
+	r.Check(len(missing) == 0 && len(extra) == 0 && len(extraCalls) == 0, rule, sc.f, "placeholder names are [A-Za-z0-9_]+ terminated by EOF, ' or any other rune", inner.Pos(),
+		"comparison constants of the name scan (through helper predicates) are exactly A-Z a-z 0-9 _ and the terminators", "the name scan's rune classes differ from [A-Za-z0-9_] / apostrophe: missing comparisons "+strings.Join(missing, ",")+"; additional comparisons "+strings.Join(extra, ",")+"; other predicates on the rune "+strings.Join(extraCalls, ",")+" - characters following a placeholder are absorbed into (or cut from) its name")
 }
 
 func c09R3(p *core.Program, r *core.Report, sc *scanClosure) {
@@ -491,7 +537,7 @@ func c09R5(p *core.Program, r *core.Report, sc *scanClosure) {
 
 func c09R6(p *core.Program, r *core.Report, sc *scanClosure) {
 	const rule = "R6"
-	r.Floor(rule, 2)
+	r.Floor(rule, 4)
 	for _, c := range []*scanClosure{sc} {
 		info := c.f.Info()
 		var bad []string
@@ -511,6 +557,50 @@ func c09R6(p *core.Program, r *core.Report, sc *scanClosure) {
 		}
 		r.Check(trimOK && len(bad) == 0, rule, c.f, "format is pre-processed only by TrimLeft(format, \"\\n\")", c.f.Node().Pos(),
 			"only leading newlines are stripped", "the template format is altered by "+strings.Join(bad, ", ")+" (or leading newlines are no longer stripped): characters other than leading newlines are not preserved")
+	}
+	// the constructors return the scanning value with the format stored as given, on every path
+	for _, spec := range []struct{ fn, typ, field string }{{"Sprintf", "printer", "fmt"}, {"T", "template", "format"}} {
+		cf := p.FuncByName("pkg/gengo/snippet", spec.fn)
+		if cf == nil {
+			r.Anchor(rule, "pkg/gengo/snippet."+spec.fn)
+			continue
+		}
+		cinfo := cf.Info()
+		okAll, nret := true, 0
+		why := ""
+		ast.Inspect(cf.Body, func(n ast.Node) bool {
+			ret, isRet := n.(*ast.ReturnStmt)
+			if !isRet || len(ret.Results) != 1 {
+				return true
+			}
+			nret++
+			e, _ := core.Resolve(cinfo, cf.Body, ret.Results[0])
+			u, isAddr := ast.Unparen(e).(*ast.UnaryExpr)
+			var cl *ast.CompositeLit
+			if isAddr {
+				cl, _ = ast.Unparen(u.X).(*ast.CompositeLit)
+			}
+			if cl == nil || core.NamedTypeName(cinfo.TypeOf(cl)) != core.G("pkg/gengo/snippet."+spec.typ) {
+				okAll, why = false, "`"+core.ExprStr(ret)+"` does not return the scanning "+spec.typ
+				return true
+			}
+			stored := false
+			for _, el := range cl.Elts {
+				if kv, isKV := el.(*ast.KeyValueExpr); isKV {
+					if id, isID := kv.Key.(*ast.Ident); isID && id.Name == spec.field {
+						if v := core.VarOf(cinfo, kv.Value); v != nil && isParamOf(cf, v) && paramIndex(cf, v) == 0 {
+							stored = true
+						}
+					}
+				}
+			}
+			if !stored {
+				okAll, why = false, "the format parameter is not stored unmodified"
+			}
+			return true
+		})
+		r.Check(okAll && nret >= 1, rule, cf, spec.fn+" always returns the scanning snippet over its unmodified format", cf.Node().Pos(), "every return is &"+spec.typ+"{"+spec.field+": <format parameter>, ...}",
+			spec.fn+" has a path that bypasses the scanner or alters the format ("+why+"): on that path %% / verbs / placeholders are not interpreted (no substitution, no panic for missing arguments)")
 	}
 	// T() stores the format unmodified
 	tf := p.FuncByName("pkg/gengo/snippet", "T")
